@@ -16,7 +16,6 @@ M = {
  "C15_m2": ("C15","weight decay after momentum appended inside 'if momentum_decay'","momentum_decay=0 with weight_decay>0 (after momentum)",["C15"],"missed by the single deviations of quick; the pair was added (thorough's 2-deviation sweep covers it anyway)"),
  "C16_m1": ("C16","train loop takes the row index from the per-chunk loop counter","at least two non-empty observation chunks in _compiled_run_dataset",["C16"],"missed at first (only the update functions were driven); C16 now runs the dataset loop over every chunking of every row sequence"),
  "C16_m2": ("C16","module-level cache of bound init/update functions keyed without delta/lr","a second binding of the same (shape, algorithm, sketch size) with other delta/lr in one process",["C16"],"missed deterministically at first; every task now binds the algorithm with other hyper-parameters first"),
- "C17_m1": ("C17","'total_score > 0' guard refactored back to truthiness","float32 cancellation leaving the running total slightly negative",["C17"],"caught (scores 1e-6,1e-6,1000)"),
  "C17_m2": ("C17","leftover hand-out skips only layers recorded as outliers","a share that floors to exactly dim-1 plus a leftover unit",["C17"],"caught"),
 }
 for sid,(prop,what,needs,det,note) in M.items():
